@@ -98,7 +98,7 @@ package netconf
 //@ func (*Driver).storeSubscriptionMessage [C08]
 //@   requires d.subscriptions != nil
 //@   modifies keys(d.subscriptions), alloc()
-//@ func (*Driver).read [C08]
+//@ func (*Driver).read [C08 C02]
 //@   maintains RI(d.Channel.Q)
 //@   requires d.messages != nil && d.subscriptions != nil
 //@   requires d.errs != d.Channel.Q.depthChan && d.done != d.Channel.Q.depthChan
